@@ -821,6 +821,9 @@ func (c *Ctx) headerEndsAtFirstEmptyLine() {
 		}
 		switch sc.Name() {
 		case "Index", "LastIndex", "Cut", "Split", "SplitN", "SplitAfter", "SplitAfterN", "Contains", "HasPrefix", "HasSuffix":
+		case "IndexByte", "LastIndexByte", "IndexRune":
+			n++ // a single-byte search by construction
+			continue
 		default:
 			continue
 		}
